@@ -64,6 +64,7 @@ type FileSpec struct {
 	Dir  bool   `json:"dir,omitempty"`
 	Data Bytes  `json:"data,omitempty"`
 	Link string `json:"link,omitempty"` // symbolic link target
+	HardLink string `json:"hard_link,omitempty"` // another name of the file at this (absolute) path: same inode, same bytes
 }
 
 // Fault kinds. Error-returning kinds are errno names; the others corrupt.
